@@ -831,7 +831,7 @@ class VLE(Equilibrium, phases='lg'):
             self._H_hat_err_at_P,
             P_bubble, P_dew,
             H_bubble/F_mass - H_hat, H_dew/F_mass - H_hat,
-            self._P, self.P_tol, self.H_hat_tol,
+            self._P, 0., self.H_hat_tol,
             (H_hat,), checkiter=False, checkbounds=False,
             maxiter=self.maxiter,
         )
@@ -880,7 +880,7 @@ class VLE(Equilibrium, phases='lg'):
             self._S_hat_err_at_P,
             P_bubble, P_dew,
             S_bubble/F_mass - S_hat, S_dew/F_mass - S_hat,
-            self._P, self.P_tol, self.S_hat_tol,
+            self._P, 0., self.S_hat_tol,
             (S_hat,), checkiter=False, checkbounds=False,
             maxiter=self.maxiter,
         )
